@@ -309,6 +309,34 @@ def getPages {α : Type} (sel : List Nat) (maxpages : Nat) (i : Nat) (pages : Li
 def getPagesErr (sel : List Nat) (maxpages : Nat) (r : List Page × Option Err) : List Page × Option Err :=
   getPagesS sel maxpages 0 r.1 r.2
 
+/-- Truth value of the `pagenos` argument as Python takes it in `not pagenos`: `None` and an empty
+container are falsy. A container is a list here: duplicates, any order, negative numbers and numbers
+beyond the last page are all possible (`set`, `list`, `range` … differ only in membership). -/
+def pagenosTruthy : Option (List Int) → Bool
+  | none => false
+  | some l => !l.isEmpty
+
+/-- `pageno in pagenos`. -/
+def pagenoIn (pagenos : Option (List Int)) (i : Nat) : Bool :=
+  match pagenos with
+  | none => false
+  | some l => l.contains (i : Int)
+
+/-- `PDFPage.get_pages(fp, pagenos, maxpages)` with its arguments as Python passes them (`pagenos`
+`None` or any container of integers, `maxpages` any integer), over the generator `create_pages`
+(pages and pending exception): `if <select_yield>: yield page; if <select_break>: break`, both tests
+regenerated from the source. `extract_text`, `extract_pages` and `extract_text_to_fp` hand their
+`page_numbers`/`maxpages` to it unchanged (asserted by the generator). -/
+def getPagesPy {α : Type} (pagenos : Option (List Int)) (maxpages : Int) :
+    Nat → List α → Option Err → List α × Option Err
+  | _, [], e => ([], e)
+  | i, p :: ps, e =>
+    let out := if select_yield (pagenosTruthy pagenos) (pagenoIn pagenos i) then [p] else []
+    if select_break maxpages (i : Int) then (out, none)
+    else
+      let r := getPagesPy pagenos maxpages (i + 1) ps e
+      (out ++ r.1, r.2)
+
 /-! ## process_page / begin_page -/
 
 /-- What the harness observes for one page: `LTPage.bbox` and the matrix of a glyph shown with
